@@ -133,6 +133,13 @@ CHECKS = {
         "ASD only, paths up to maxiters 2/3, small generated problems; sciris is third-party code driven through a scripted generator.",
         "5/C15",
     ),
+    "C16": (
+        "model_checking",
+        "explicit-state exploration of edit histories (all sequences up to length 2/3 over a 13-operation alphabet) on the real objects with a differential oracle against objects rebuilt from their own exported spreadsheets; exhaustive round trips of generated and library files",
+        "Every history of editing operations within the bound is replayed on fresh objects; in every reached state the live objects must simulate like the objects rebuilt from their own exports, the export must be a fixed point, and the same operation applied to the rebuilt objects must lead to the same behaviour (so no hidden cache can matter). Round trips of every generated structure class and every loadable library file are compared for content and behaviour.",
+        "Binary files of the current version only; library files that do not load are C18's concern.",
+        "5/C16",
+    ),
 }
 
 PENDING_REASON = "check not built yet in this session (see DESIGN.md section 8 for the build order); no claim is made"
